@@ -1,0 +1,27 @@
+//go:build verif
+
+// Verification hook for property C14 (variable precedence). Add-only; compiled only with
+// -tags verif. Loads a workflow document the way Load does (unmarshal, attach to the parent,
+// ProcessTemplates) without the repository manager and the task class refresh.
+package workflow
+
+import (
+	"github.com/AliceO2Group/Control/core/repos"
+	"gopkg.in/yaml.v3"
+)
+
+// VerifC14LoadYAML mirrors the loadSubworkflow closure of Load followed by ProcessTemplates.
+func VerifC14LoadYAML(doc []byte, parent Updatable, repo repos.IRepo, baseConfigStack map[string]string) (Role, error) {
+	root := new(aggregatorRole)
+	root.parent = parent
+	if err := yaml.Unmarshal(doc, root); err != nil {
+		return nil, err
+	}
+	if parent != nil {
+		root.setParent(parent)
+	}
+	if err := root.ProcessTemplates(repo, nil, baseConfigStack); err != nil {
+		return nil, err
+	}
+	return root, nil
+}
